@@ -72,6 +72,7 @@ type VC struct {
 	heapOrder     []string
 	epochCtr      int
 	capStack      []*captureBuf
+	valK, valV    map[string]Sort
 }
 
 func newVC(p *Program, unit string) *VC {
@@ -411,9 +412,7 @@ func (vc *VC) validity(x T, depth int) []string {
 			}
 			return out
 		}
-		if u.Info()&types.IsString != 0 {
-			return []string{fmt.Sprintf("(>= %s 0)", x.S)}
-		}
+		// strings are arbitrary integer identifiers ("" is 0): no range constraint
 	case *types.Struct:
 		if depth > 3 {
 			return nil
@@ -645,6 +644,10 @@ func (vc *VC) heapDom(k Sort) string {
 }
 func (vc *VC) heapVal(k, v Sort) string {
 	n := "Val_" + sortTag(k) + "_" + sortTag(v)
+	if vc.valK == nil {
+		vc.valK, vc.valV = map[string]Sort{}, map[string]Sort{}
+	}
+	vc.valK[n], vc.valV[n] = k, v
 	vc.regHeap(n, "(Array Int (Array "+k+" "+v+"))")
 	return n
 }
@@ -736,4 +739,59 @@ func (vc *VC) at(elem Sort, h, sl, idx string) string {
 	vc.decl(name, fmt.Sprintf("(declare-fun %s ((Array Int (Array Int %s)) Slice Int) %s)", name, elem, elem))
 	vc.decl(name+"_def", fmt.Sprintf("(assert (forall ((h (Array Int (Array Int %s))) (s Slice) (i Int)) (! (= (%s h s i) (select (select h (s_arr s)) (+ (s_off s) i))) :pattern ((%s h s i)))))", elem, name, name))
 	return fmt.Sprintf("(%s %s %s %s)", name, h, sl, idx)
+}
+
+func (vc *VC) declCount() {
+	vc.decl("cntTrue", "(declare-fun cntTrue (Int (Array Int Bool) Int Int) Int)")
+	vc.decl("cntTrue_syn", "(assert (forall ((f Int) (a (Array Int Bool)) (o Int) (n Int)) (! (= (cntTrue f a o n) (cntTrue 0 a o n)) :pattern ((cntTrue f a o n)))))")
+	vc.decl("cntTrue_def", "(assert (forall ((f Int) (a (Array Int Bool)) (o Int) (n Int)) (! (=> (> f 0) (= (cntTrue f a o n) (ite (<= n 0) 0 (+ (cntTrue (- f 1) a o (- n 1)) (ite (select a (+ o (- n 1))) 1 0))))) :pattern ((cntTrue f a o n)))))")
+	vc.decl("cntTrue_mono", "(assert (forall ((f Int) (g Int) (a (Array Int Bool)) (o Int) (n1 Int) (n2 Int)) (! (=> (and (<= 0 n1) (<= n1 n2)) (<= (cntTrue f a o n1) (cntTrue g a o n2))) :pattern ((cntTrue f a o n1) (cntTrue g a o n2)))))")
+	vc.assumedStd["count(s, n) (true entries among s[0..n)): recursive definition unfolded by fuel-limited axioms; 0 <= count <= n and monotonicity in n are assumed lemmas"] = true
+	vc.decl("cntTrue_rng", "(assert (forall ((f Int) (a (Array Int Bool)) (o Int) (n Int)) (! (and (<= 0 (cntTrue f a o n)) (=> (>= n 0) (<= (cntTrue f a o n) n))) :pattern ((cntTrue f a o n)))))")
+}
+
+// mhas / mval: map membership and lookup as function symbols over (heap version, map reference, key),
+// defined by triggered axioms; helper frame axioms are emitted wherever a new heap version is created,
+// so that quantified facts about one version reach terms of another by E-matching.
+func (vc *VC) mhas(ks Sort, dom, m, k string) string {
+	name := "mhas." + sortTag(ks)
+	vc.decl(name, fmt.Sprintf("(declare-fun %s ((Array Int (Array %s Bool)) Int %s) Bool)", name, ks, ks))
+	vc.decl(name+"_def", fmt.Sprintf("(assert (forall ((d (Array Int (Array %s Bool))) (m Int) (k %s)) (! (= (%s d m k) (select (select d m) k)) :pattern ((%s d m k)))))", ks, ks, name, name))
+	return fmt.Sprintf("(%s %s %s %s)", name, dom, m, k)
+}
+
+func (vc *VC) mval(ks, vs Sort, val, m, k string) string {
+	name := "mval." + sortTag(ks) + "." + sortTag(vs)
+	vc.decl(name, fmt.Sprintf("(declare-fun %s ((Array Int (Array %s %s)) Int %s) %s)", name, ks, vs, ks, vs))
+	vc.decl(name+"_def", fmt.Sprintf("(assert (forall ((d (Array Int (Array %s %s))) (m Int) (k %s)) (! (= (%s d m k) (select (select d m) k)) :pattern ((%s d m k)))))", ks, vs, ks, name, name))
+	return fmt.Sprintf("(%s %s %s %s)", name, val, m, k)
+}
+
+// mapSorts parses Dom_<K> / Val_<K>_<V> heap sorts.
+func (vc *VC) mapSortsOf(name string) (ks, vs Sort, isDom, ok bool) {
+	srt := vc.heapNames[name]
+	if strings.HasPrefix(name, "Dom_") {
+		// (Array Int (Array K Bool))
+		inner := srt[len("(Array Int (Array ") : len(srt)-2]
+		return strings.TrimSuffix(inner, " Bool"), "Bool", true, true
+	}
+	if strings.HasPrefix(name, "Val_") {
+		return vc.valK[name], vc.valV[name], false, true
+	}
+	return "", "", false, false
+}
+
+// mapOthersUnchanged: forall m k :: cond(m) ==> f(newH, m, k) == f(oldH, m, k)   (f = mhas or mval)
+func (vc *VC) mapOthersUnchanged(name, newH, oldH, cond string) {
+	ks, vs, isDom, ok := vc.mapSortsOf(name)
+	if !ok || len(vc.capStack) > 0 {
+		return
+	}
+	var an, ao string
+	if isDom {
+		an, ao = vc.mhas(ks, newH, "m", "k"), vc.mhas(ks, oldH, "m", "k")
+	} else {
+		an, ao = vc.mval(ks, vs, newH, "m", "k"), vc.mval(ks, vs, oldH, "m", "k")
+	}
+	vc.emit(fmt.Sprintf("(assert (forall ((m Int) (k %s)) (! (=> %s (= %s %s)) :pattern (%s))))", ks, cond, an, ao, an))
 }
